@@ -254,6 +254,15 @@ theorem C10_build_scans_wf (ops : List MOp) (hp : ∀ op ∈ ops, op.proper ∧ 
       obtain ⟨L, hL, hscan, hwf⟩ := build_scans_wf m hb hw tv f35 hf8 hf35 bytes m' hbuild hsmall
       exact ⟨by simp [wireWF, hscan, hwf], L, hL, hscan⟩
 
+/-- "a copied message serialises identically to its source": for every message produced by Message API operations (after
+    the fix of `CopyInto`), `CopyInto` a fresh message yields a message EQUAL to the source — every section map, order
+    list and comparator — hence `build` of the copy returns the same bytes. -/
+theorem C10_copy_identical (ops : List MOp) (hp : ∀ op ∈ ops, op.proper) (m : Message) (hrun : runMOps ops Message.new = .ok m) :
+    m.copy Fixes.cur = .ok m ∧ ∀ c, m.copy Fixes.cur = .ok c → c.build Fixes.cur = m.build Fixes.cur := by
+  obtain ⟨hb, hpl⟩ := runMOps_plain ops _ m Built.new Plain.new hp hrun
+  have h := copy_self m hb hpl
+  exact ⟨h, fun c hc => by rw [h] at hc; injection hc with hc; rw [hc]⟩
+
 /-- the hypotheses of `C10_build_wf` are an invariant: they hold again after the build (and any further proper operations) -/
 theorem C10_built_invariant (ops : List MOp) (hp : ∀ op ∈ ops, op.proper) (m : Message) (hrun : runMOps ops Message.new = .ok m) :
     Built m := runMOps_built ops _ m Built.new hp hrun
@@ -301,6 +310,7 @@ example : ∃ m, runFOps [.set (TagValue.init 58 [97]), .remove 58, .set (TagVal
    "CheckSum last"                                                 C10_build_wf (bytes); C10_trailer_checksum_last
    "BodyLength equals the byte count … CheckSum equals the sum"    C10_build_wf (bytes); C10_length_total_accounting, C10_cook_values
    "Parsing those bytes yields the same fields and values"         C10_parse_build (no dictionary; monitor clauses reparse_ok / reparse_same_fields for all modes)
-   "a copied message serialises identically to its source"         C10_copy_writes_same, C10_copy_length_total_same (monitor copy_identical)
+   "a copied message serialises identically to its source"         C10_copy_identical (message level), C10_copy_writes_same,
+                                                                   C10_copy_length_total_same (section level, also parsed sources)
    scanner-level well-formedness of the whole output               C10_build_scans_wf (wireWF, scan = written fields); relative to Abs: C10_build_wf_full
    op-order independence ("whatever API calls produced them")      C10_write_history_independent -/
